@@ -348,6 +348,9 @@ pub fn newline_token() {
             assert!(consumed(&lr, &pre) == e - s);
             assert!(lr.line == pre.line + 1);
             assert!(lr.line_start == pre.st.base + s + n);
+            // C10: one line end and its blanks per call; nothing is requested beyond the first
+            // byte after them (a run of blank lines is not swallowed by look-ahead)
+            check_lookahead(&lr, &pre, e + 1);
             kani::cover!(n == 2, "CRLF");
         }
         Out::Fall => {
